@@ -8,6 +8,8 @@
 //!      * against the Lean model `RbModel.Num` (cases the model reports `inexact` are counted, not compared).
 //! 2. Programs through `run_in_memory` with a per-instruction observer: every variable, array element
 //!    and record field whose name says its type must hold a value of that tag, in range, at all times.
+//!    Families of their own: `builtin-result` (result of a numeric built-in -> variable) and `literal-store`
+//!    (literal at the ends of SINGLE / DOUBLE -> variable: finite, or the program is rejected with Overflow).
 
 use std::cell::RefCell;
 use std::rc::Rc;
@@ -723,6 +725,75 @@ fn builtin_cases(rng: &mut Rng, thorough: bool) -> Vec<BuiltinCase> {
         cases.push(BuiltinCase { func: "varseg", text, var: "S%".to_owned(), req: Some(format!("(bres.varseg t {})", n - 1)), unobserved: true });
     }
     cases
+}
+
+// ---- literals stored in variables ---------------------------------------------------------------------
+
+/// `2^1024 - 2^970`: the first whole number no DOUBLE holds; `2^128 - 2^103`: the first one no SINGLE holds
+/// (halfway between the largest value of the type and the next power of two; the tie rounds up).
+const DBL_EDGE: &str = "179769313486231580793728971405303415079934132710037826936173778980444968292764750946649017977587207096330286416692887910946555547851940402630657488671505820681908902000708383676273854845817711531764475730270069855571366959622842914819860834936475292719074168444365510704342711559699508093042880177904174497792";
+const DBL_BELOW_EDGE: &str = "179769313486231580793728971405303415079934132710037826936173778980444968292764750946649017977587207096330286416692887910946555547851940402630657488671505820681908902000708383676273854845817711531764475730270069855571366959622842914819860834936475292719074168444365510704342711559699508093042880177904174497791";
+const SGL_EDGE: &str = "340282356779733661637539395458142568448";
+const SGL_BELOW_EDGE: &str = "340282356779733661637539395458142568447";
+
+/// One program of the family `literal-store`: the literal `lit` (written with sign and suffix) reaches the
+/// variable `var` by `route`; `fits` says whether the literal's own type holds the written value.
+struct LiteralCase {
+    lit: String,
+    text: String,
+    var: &'static str,
+    route: &'static str,
+    fits: bool,
+}
+
+fn literal_cases() -> Vec<LiteralCase> {
+    // (text without sign, fits its own type)
+    let nines = "9".repeat(400);
+    let ten309 = format!("1{}", "0".repeat(309));
+    let lits: Vec<(String, bool)> = vec![
+        // SINGLE literals (a fraction, no suffix)
+        ("1.5".to_owned(), true),
+        ("340282346638528859811704183484516925440.0".to_owned(), true),
+        (format!("{}.9", SGL_BELOW_EDGE), true),
+        (format!("{}.0", SGL_EDGE), false),
+        ("340282366920938463463374607431768211456.0".to_owned(), false),
+        (format!("{}.0", DBL_EDGE), false),
+        (format!("{}.5", nines), false),
+        (format!(".{}1", "0".repeat(60)), true),
+        // DOUBLE literals (a fraction and `#`)
+        ("1.5#".to_owned(), true),
+        (format!("{}.0#", SGL_EDGE), true),
+        (format!("{}.9#", DBL_BELOW_EDGE), true),
+        (format!("{}.0#", DBL_EDGE), false),
+        (format!("{}.0#", ten309), false),
+        (format!("{}.5#", nines), false),
+        (format!(".{}1#", "0".repeat(400)), true),
+        // runs of digits beyond the LONG range (DOUBLE literals without a fraction)
+        (SGL_EDGE.to_owned(), true),
+        (DBL_BELOW_EDGE.to_owned(), true),
+        (DBL_EDGE.to_owned(), false),
+        (ten309.clone(), false),
+        (nines.clone(), false),
+    ];
+    let mut out = vec![];
+    for (l, fits) in &lits {
+        for neg in [false, true] {
+            let lit = format!("{}{}", if neg { "-" } else { "" }, l);
+            for var in ["X!", "X#"] {
+                let sfx = &var[1..];
+                let progs: [(&'static str, String); 4] = [
+                    ("assign", format!("{v} = {l}\nPRINT {v}\n", v = var, l = lit)),
+                    ("const", format!("CONST C = {l}\n{v} = C\nPRINT {v}\n", v = var, l = lit)),
+                    ("array", format!("DIM A{s}(1 TO 2)\nA{s}(2) = {l}\n{v} = A{s}(2)\nPRINT {v}\n", s = sfx, v = var, l = lit)),
+                    ("param", format!("DECLARE SUB P (V{s})\nP {l}\nSUB P (V{s})\n {v} = V{s}\n PRINT {v}\nEND SUB\n", s = sfx, v = var, l = lit)),
+                ];
+                for (route, text) in progs {
+                    out.push(LiteralCase { lit: lit.clone(), text, var, route, fits: *fits });
+                }
+            }
+        }
+    }
+    out
 }
 
 fn suffix(q: TypeQualifier) -> &'static str {
@@ -1588,6 +1659,77 @@ fn main() {
             rep.sample(J::s(format!("{} => {}", shown, o.result)));
         }
     }
+    // ---- literals ------------------------------------------------------------------------------------------
+    // A literal is a value that reaches a variable without any arithmetic or conversion of the interpreter when
+    // the types agree: what the parser made of the digits is what the variable holds. Literals at and around the
+    // ends of SINGLE and DOUBLE (with a fraction, with `#`, plain digit runs; both signs) are stored in `X!` and
+    // `X#` by assignment, through a CONST, an array element and a by-value parameter: the variable holds a finite
+    // value at all times, or the program is rejected (parse error Overflow) or stops with Overflow.
+    let lcases = literal_cases();
+    let mut l_outcomes: std::collections::BTreeMap<String, u64> = Default::default();
+    for (k, c) in lcases.iter().enumerate() {
+        rep.case(Some(format!("prog:{}", c.text)));
+        rep.bump(&format!("program.literal-store.{}", c.route));
+        rep.bump(if c.fits { "program.literal-store.literal-fits" } else { "program.literal-store.literal-beyond-its-type" });
+        let (o, last) = run_observed_watch(&c.text, b"", Some(c.var));
+        checked_values += o.checked_values;
+        let kind = o.result.split_whitespace().next().unwrap_or("?").to_owned();
+        let rejected = kind == "front-end-error" && o.result.contains("Overflow");
+        let overflowed = kind == "runtime-error" && o.result.contains("Overflow");
+        let outcome = if rejected { "rejected-overflow".to_owned() } else if overflowed { "runtime-overflow".to_owned() } else { kind.clone() };
+        *l_outcomes.entry(outcome.clone()).or_insert(0) += 1;
+        let shown = c.text.clone();
+        // (a) the property: every variable of its declared type, finite, at all times
+        if !o.violations.is_empty() || kind == "panic" {
+            rep.fail(Failure {
+                kind: Kind::ImplVsProperty,
+                signature: format!("program:literal-store:{}", if kind == "panic" { "panic" } else { "range" }),
+                input: shown.clone(),
+                implementation: if kind == "panic" { "panic".into() } else { o.violations.join("; ") },
+                expected: format!(
+                    "the literal {} stored in {} is a finite value of the variable's type, or the program is rejected / stops with Overflow",
+                    c.lit, c.var
+                ),
+                note: format!("run result: {}", o.result),
+            });
+            continue;
+        }
+        // (b) nothing else happens: a literal beyond its own type is rejected, one that fits is stored (the nearest
+        // value of the literal's type, converted to the variable's) or does not fit the variable (SINGLE): Overflow
+        let last_shown = last.as_ref().map(show_variant).unwrap_or("unset".into());
+        let unsigned = c.lit.trim_start_matches('-').trim_end_matches('#');
+        let is_double_lit = c.lit.ends_with('#') || !c.lit.contains('.');
+        let as_f64: f64 = if is_double_lit { unsigned.parse::<f64>().unwrap_or(f64::NAN) } else { unsigned.parse::<f32>().map(|f| f as f64).unwrap_or(f64::NAN) };
+        let as_f64 = if c.lit.starts_with('-') { -as_f64 } else { as_f64 };
+        let want: String = if !c.fits {
+            "rejected-overflow".to_owned()
+        } else if c.var == "X#" {
+            format!("ok {}", show_variant(&Variant::VDouble(as_f64)))
+        } else if (as_f64 as f32).is_finite() {
+            format!("ok {}", show_variant(&Variant::VSingle(as_f64 as f32)))
+        } else {
+            "runtime-overflow".to_owned()
+        };
+        let got = if outcome == "ok" { format!("ok {}", last_shown) } else { outcome.clone() };
+        if got != want {
+            rep.fail(Failure {
+                kind: Kind::ImplVsProperty,
+                signature: format!("program:literal-store:{}", if c.fits { "fitting-literal" } else { "accepted-beyond-type" }),
+                input: shown.clone(),
+                implementation: format!("{} ({})", got, o.result),
+                expected: want,
+                note: format!("literal {} by route {}", c.lit, c.route),
+            });
+        }
+        if k == 0 {
+            rep.sample(J::s(format!("{} => {}", shown, o.result)));
+        }
+    }
+    rep.notes.push(format!(
+        "literals: {} programs (20 literals at and around the ends of SINGLE / DOUBLE x 2 signs x X! / X# x assignment, CONST, array element, by-value parameter); outcomes {:?}",
+        lcases.len(),
+        l_outcomes
+    ));
     rep.notes.push(format!(
         "built-in results: {} programs over 10 of the 11 numeric built-ins (LEN INSTR VARPTR VARSEG LBOUND UBOUND ERR PEEK CVD VAL; EOF needs a file and is exercised by C18), {} compared with the model of the hand-over, {} inexact (finite numbers outside the exact float domain: property only); outcomes {:?}",
         bcases.len(),
